@@ -149,6 +149,41 @@ def run(ctx):
         base = baseline("C20.%s.%s" % (fn_name, enum), sorted(live))
         for v in base:
             rep.check(v in live, "C20.R5", "live:%s::%s" % (enum, v), "still constructed", "%s no longer rejects with %s::%s" % (fn_name, enum, v), site=f.loc())
+    # the importer's CAS port is untrusted storage: every function that asks it anything re-hashes what it got and compares
+    # hash and length with the reference (the only such function is `validated_cas_blob_bytes`); a presence-only question,
+    # or bytes taken without the re-hash, would accept a present-but-wrong blob.  Every reference collection of the
+    # CAS-addressed export reaches that function.
+    port_users = []
+    for g in prog.fns.values():
+        if g.crate != "warp_core" or "::tests" in g.id or "WscCasBlobStorePort::" in g.id:   # a provided method is part of the port; its callers are the users
+            continue
+        if any(b["t"]["t"] == "call" and "WscCasBlobStorePort::" in (g.callee_of(b["t"]) or "") for b in g.blocks):
+            port_users.append(g)
+    rep.check(len(port_users) >= 1, "C20.R5", "cas-port:users", "%d function(s) consult the importer's CAS port" % len(port_users), "no function consults the CAS port any more", site=ST + "WscCasBlobStorePort")
+    for g in sorted(port_users, key=lambda g: g.id):
+        st1, d1 = find_guard(prog, g, ST + "WscCasAddressedWalImportError", "CasBlobHashMismatch", {"c:cas_content_hash"}, {"p:2"}, search_tree=False)
+        st2, d2 = find_guard(prog, g, ST + "WscCasAddressedWalImportError", "CasBlobLengthMismatch", {"c:len_u64"}, {"p:4"}, search_tree=False)
+        rep.check(st1 == "ok" and st2 == "ok", "C20.R5", "cas-port:answer-rehashed:%s" % g.name, "the port's bytes are re-hashed and length-checked against the reference in the same function",
+                  "%s consults the importer's CAS port without re-hashing and length-checking what it returned (%s / %s): a present but corrupted, truncated or substituted blob is accepted"
+                  % (g.name, d1, d2), site=g.loc())
+    casf = prog.fn(ST + "validate_wsc_cas_addressed_wal_export")
+    cas_tree, _ = tree(prog, [casf], stop=lambda i: not i.startswith("warp_core::wsc::"))
+    refs = prog.adt(ST + "WscCasAddressedWalReferences")
+    guarded_ids = {g.id for g in port_users}
+    for fld in refs["variants"][0]["fields"]:
+        if not fld["ty"].startswith("std::vec::Vec<"):
+            continue
+        reached = None
+        for g in cas_tree:
+            for bi, b in enumerate(g.blocks):
+                t_ = b["t"]
+                if t_["t"] != "call" or g.callee_of(t_) not in guarded_ids:
+                    continue
+                og_ = g.origins()
+                if any(steps_have(at, "WscCasAddressedWalReferences", fld["n"]) for a in t_["args"] for at in og_.of_operand(a, deep=True)):
+                    reached = (g, g.block_line(bi))
+        rep.check(reached is not None, "C20.R5", "cas-port:every-%s-reference-validated" % fld["n"], "each `%s` reference is passed to the re-hashing fetch%s" % (fld["n"], " (%s:%s)" % (reached[0].name, reached[1]) if reached else ""),
+                  "no `%s` reference of a CAS-addressed export reaches the re-hashing fetch any more: those blobs are imported unverified" % fld["n"], site=casf.loc())
     # every embedded payload is checked against ITS OWN declared digest, whatever its retention posture: in the trees of the
     # two self-contained payload validators there is a comparison between hash(payload.material_bytes) and
     # payload.material.material_digest — both sides read from the same embedded-payload value — and it is not nested under a
